@@ -70,11 +70,13 @@ def required_cells(tier):
             "define-sets>=4", "class:E", "class:R", "include", "all-code-lines-compared", "directive-inside-continuation",
             "comment-in-literal-continuation", "blank-in-literal-continuation", "nested-include",
             "hash-first-in-literal-continuation", "comment-after-conditional-directive", "selection-inside-included-header",
-            "include-of-non-source-extension", "form-feed-in-comment-or-literal", "sentinel:upper-or-mixed-case-prefix", "sentinel:followed-by-ampersand"]
+            "include-of-non-source-extension", "form-feed-in-comment-or-literal", "sentinel:upper-or-mixed-case-prefix", "sentinel:followed-by-ampersand",
+            "fixed:line-longer-than-132-columns", "fixed:c-comment-from-directive-line-to-later-line"]
 
 
 def gfortran(args, cwd):
-    p = subprocess.run(["gfortran"] + args, cwd=cwd, capture_output=True, text=True, timeout=120, errors="replace")
+    # (no limit on the length of a free-form line: the default of 132 is a compiler option, not part of the text)
+    p = subprocess.run(["gfortran", "-ffree-line-length-none"] + args, cwd=cwd, capture_output=True, text=True, timeout=120, errors="replace")
     return p.returncode, p.stdout, p.stderr
 
 
@@ -363,6 +365,26 @@ def classify(shrunk):
     return None
 
 
+def fixed_texts():
+    """Deterministic texts outside the statement grammar:
+      long:    statements far longer than 132 characters whose closing quote, or trailing comment with an apostrophe,
+               lies beyond column 132 (and beyond 1000), followed by ordinary comments that hold an apostrophe;
+      dircom:  a C comment that starts on a directive line and ends on a LATER line (the preprocessor blanks all of it)."""
+    for n in (100, 131, 132, 133, 140, 200, 1200):
+        lit = "'" + "x" * n + "'"
+        body = [f"  s = {lit}", "  ! it's a comment, isn't it", "  call m_8()", "  x = " + " + ".join(["1"] * (n // 4 + 1)) + " ! don't count: it's one",
+                "  ! 'quoted' comment", "  call m_11()", f"  s = {lit} // 'b'  ! tail's", "  ! last one's", "  y = 2"]
+        yield "long", "\n".join(PRE + body + POST) + "\n"
+    for opener, mid, closer in (("#define X 1 /* start", [" still comment"], " end */"), ("#ifdef A /* why", [" because"], " of this */"),
+                                ("#define Y 2 /* it's", [], " over */"), ("#if B == 1 /* one", [" ! not fortran", " x = 99"], "*/"),
+                                ("#undef X /* gone *", [" * more *"], " */"), ("#define Z /**", ["  call m_0()"], "**/")):
+        body = [opener] + mid + [closer, "  x = 1", "  call m_%d()" % (len(PRE) + len(mid) + 4)]
+        if opener.startswith(("#ifdef", "#if ")):
+            body += ["#else", "  call m_%d()" % (len(PRE) + len(mid) + 6), "#endif"]
+        body += ["  ! it's the end", "  y = 2"]
+        yield "dircom", "\n".join(PRE + body + POST) + "\n"
+
+
 def run_shard(ctx):
     b = bounds(ctx.tier)
     work = ctx.subdir("w")
@@ -379,6 +401,12 @@ def run_shard(ctx):
                 continue
             text = "\n".join(PRE + ["  " + x if x and not x.startswith(("#", " ", "\t")) else x for x in body] + ["#endif"] * opens + POST) + "\n"
             check_text(ctx, text, work, "E", DEFSETS[:3])
+    for k, (kind, text) in enumerate(fixed_texts()):
+        if (k + 3) % ctx.nshards == ctx.shard:
+            before = ctx.acc.verdicts["held"] + ctx.acc.verdicts["violated"]
+            check_text(ctx, text, work, "F", DEFSETS)
+            if ctx.acc.verdicts["held"] + ctx.acc.verdicts["violated"] > before:
+                ctx.acc.cells["fixed:" + ("line-longer-than-132-columns" if kind == "long" else "c-comment-from-directive-line-to-later-line")] += 1
     rng = ctx.rng("random")
     for i in range(b["random"]):
         body = rand_body(rng)
